@@ -5,8 +5,10 @@
   (every registered formatter with its `print_*` methods and sub-formatters; every TreeNode and edit class with its
   MRO).  `dispatch_total`: for every registered root formatter (and every sub-formatter instance, and the Edited
   variants) and every concrete node class, the search RETURNS A HANDLER (no fallback needed), so rendering can never
-  fail for want of a handler; `edit_dispatch_total`: every concrete edit class has a formatter method or its own
-  `print` (those whose `print` raises NotImplementedError fall back to their node's handler).
+  fail for want of a handler; edits: `GraphtageFormatter.print` tries a formatter method for the edit class, then `edit.print`,
+  then (NotImplementedError) the handler of the edit's from-node, which `dispatch_total` provides;
+  `string_edit_dispatch_total` / `edit_dispatch_exact` say which edit classes are resolved at the first step
+  (`edit_dispatch_total`, true by an always-true disjunct, is kept but no longer registered).
   The model of the search is validated EXHAUSTIVELY on every run (stream `dispatch`: every (formatter instance,
   class) pair, plain and Edited variants, against the real `get_formatter`).
   NOT modelled: the ~1 500 lines of handler bodies.  That part of C13 is decided on the real code only, by the
@@ -39,13 +41,41 @@ theorem dispatch_total_from_subformatters :
       (getFormatter Gen.formatters (some (ri, p)) (editedMro c)).isSome = true := by
   decide +kernel
 
-/-- edits: every concrete edit class either has a formatter method or defines its own `print`; edits whose `print`
-    raises NotImplementedError (KeyValuePairEdit, StringEdit) fall back to the handler of their from-node, which
-    exists by `dispatch_total`.  (The right disjunct is what the code relies on for most edit classes: this theorem
-    records that no edit class is left without either.) -/
+/-- NOT REGISTERED (kept as a record): every concrete edit class has a formatter method OR an own `print` attribute.
+    The right disjunct is true of EVERY row of the table (`AbstractEdit` / `AbstractCompoundEdit` define `print`), so
+    this statement holds whatever the dispatch does — it says nothing about the search.  What the code really relies
+    on for edits is the three-step protocol of `GraphtageFormatter.print` (tree.py): (1) a formatter method for the
+    edit class, else (2) `edit.print`, and when that raises NotImplementedError (KeyValuePairEdit, StringEdit)
+    (3) the handler of the edit's from-NODE — which exists for every concrete node class under every formatter
+    instance by `dispatch_total` / `dispatch_total_from_subformatters`.  So rendering an edit can never fail for want
+    of a handler because of step (3); the statements about step (1) that do have content are the two below. -/
 theorem edit_dispatch_total :
     ∀ ri ∈ List.range Gen.formatters.length, ∀ c ∈ Gen.editClasses, concrete c = true →
       (getFormatter Gen.formatters (some (ri, [])) c.2.1).isSome = true ∨ c.2.2.1 = true := by
+  decide +kernel
+
+/-- step (1), no disjunct: `StringEdit` — the edit whose own `print` refuses (raises NotImplementedError) and whose
+    rendering is formatter specific — is resolved to a `print_StringEdit` METHOD OF SOME FORMATTER under every
+    registered root formatter and from every sub-formatter instance -/
+theorem string_edit_dispatch_total :
+    ∀ ri ∈ List.range Gen.formatters.length, ∀ p ∈ allPaths (Gen.formatters.getD ri (.mk "" [] [])),
+      ∀ c ∈ Gen.editClasses, c.1 = "StringEdit" →
+      (getFormatter Gen.formatters (some (ri, p)) c.2.1).isSome = true := by
+  decide +kernel
+
+/-- step (1), exactly: under every root formatter the edit classes that resolve to a formatter method are
+    `StringEdit` and nothing else — every other edit class is printed by its own `print` (step 2) or, for
+    `KeyValuePairEdit`, by its node's handler (step 3, `dispatch_total`).  A tripwire for the regenerated tables: a new
+    `print_<Edit>` method or a renamed one changes this list. -/
+theorem edit_dispatch_exact :
+    ∀ ri ∈ List.range Gen.formatters.length,
+      (Gen.editClasses.filter fun c => (getFormatter Gen.formatters (some (ri, [])) c.2.1).isSome).map (·.1)
+        = ["StringEdit"] := by
+  decide +kernel
+
+/-- the search is not trivially successful on edit classes: `Match` resolves to NO formatter method -/
+example : ∀ ri ∈ List.range Gen.formatters.length, ∀ c ∈ Gen.editClasses, c.1 = "Match" →
+    (getFormatter Gen.formatters (some (ri, [])) c.2.1).isSome = false := by
   decide +kernel
 
 /-- the search never runs out of fuel on the generated tables: doubling the fuel changes no answer -/
